@@ -12,6 +12,7 @@ pub mod c16;
 pub mod e1;
 pub mod e2;
 pub mod e3;
+pub mod e4;
 pub mod e5;
 pub mod e6;
 pub mod irrd;
@@ -21,6 +22,7 @@ pub mod ev;
 pub mod exec;
 pub mod explore;
 pub mod mem;
+pub mod peers;
 
 use ev::{Report, Tier};
 
@@ -62,7 +64,12 @@ pub fn dispatch(id: &str, tier: Tier, replay: Option<&str>, budget: Duration) ->
         "C08" => c08::run(&mut report),
         "C09" => c09::run(&mut report),
         "C10" => c10::run(&mut report),
-        "C12" => c12::run(&mut report),
+        "C12" => {
+            c12::run(&mut report);
+            let n = e4::run_framing(&mut report);
+            report.add("evaluations", n);
+            report.set("real_transport_framing_cases", n);
+        }
         "C13" => c13::run(&mut report),
         "C14" => c14::run(&mut report),
         "C19" => e7::run(&mut report),
@@ -70,6 +77,8 @@ pub fn dispatch(id: &str, tier: Tier, replay: Option<&str>, budget: Duration) ->
         "C17" => e5::run_c17(&mut report, budget),
         "C04" => e6::run_c04(&mut report),
         "C15" => e6::run_c15(&mut report),
+        "C06" => e4::run_c06(&mut report),
+        "C07" => e4::run_c07(&mut report),
         "probe-e5" => { e5::probe(); return 0; }
         _ => {
             eprintln!("unknown property {id}");
